@@ -35,6 +35,12 @@ BUILT = {
             "For generated files and soups any subset of punctuators is respelled and any subset of lexeme boundaries receives a splice; the (type, value) token sequence must not change, "
             "all adjacent/separated operator pairs are enumerated for longest-match, and brace/bracket respelling must leave (level, code, line) of the analysis unchanged.",
             "The base tokenisation is the reference (its correctness is C09-C11's business).", "§4.12"),
+    "C13": ("template-based generation of 42 headers with arbitrary fields + enumeration of 27 structural mutations; count oracle",
+            "Generated stdheader field tuples in front of generated bodies must never yield INVALID_HEADER; each single structural mutation of the list must yield it exactly once.",
+            "Field values fit the template's widths; only the listed single mutations.", "§4.13"),
+    "C14": ("generated header names and bodies x enumerated guard variants G0-G8; expected-diagnostic oracle with the guard symbol computed by the harness",
+            "For generated header names over [a-z0-9_.] and generated bodies: the correct guard is accepted, each guard mutation gets its protection diagnostic, .c files never get one.",
+            "Names starting with a digit are excluded.", "§4.14"),
     "C17": ("metamorphic testing on generated programs: same-width replacement of comment / literal interiors with code-like text",
             "Comment and literal interiors of generated conforming and violating files are replaced by code-like text of the same width; diagnostics must be identical including columns and order.",
             "Replacement alphabet excludes delimiters, backslash, tab, newline and '??' as the property states.", "§4.17"),
